@@ -193,4 +193,155 @@ theorem sampleOK_active {H : ByteArray → ByteArray} (hH : ∀ x, (H x).size = 
       rw [← Array.getElem_toList (h := by simpa using hk)]; exact List.getElem_mem _)).1⟩
 
 
+
+/-! ## termination under "some active validator has the maximum effective balance" -/
+
+/-- some active validator has (at least) the maximum effective balance: it is accepted whatever the random byte -/
+def HasMaxBalance (cfg : Cfg) (vals : Array Val) (active : Array Nat) : Prop :=
+  ∃ p, ∃ hp : p < active.size, ∃ hv : active[p] < vals.size, cfg.MAX_EFFECTIVE_BALANCE ≤ (vals[active[p]]).effBal
+
+theorem accepts_of_max (cfg : Cfg) (eff byte : Nat) (he : cfg.MAX_EFFECTIVE_BALANCE ≤ eff) (hb : byte ≤ 255) :
+    accepts cfg eff byte = true := by
+  unfold accepts
+  simp only [decide_eq_true_eq, ge_iff_le]
+  calc cfg.MAX_EFFECTIVE_BALANCE * byte ≤ cfg.MAX_EFFECTIVE_BALANCE * 255 := Nat.mul_le_mul_left _ hb
+    _ ≤ eff * 255 := Nat.mul_le_mul_right _ he
+
+theorem byteAt_le (b : ByteArray) (i : Nat) : byteAt b i ≤ 255 := by
+  unfold byteAt
+  have := (b.get! i).toNat_lt
+  omega
+
+/-- in every window of `n` consecutive candidates one is accepted -/
+theorem window_accepts {H cfg vals active} (ok : SampleOK H cfg vals active) (hm : HasMaxBalance cfg vals active)
+    (seed : ByteArray) (i : Nat) :
+    ∃ d, d < active.size ∧ ∃ x, Spec.candidate H cfg vals.toList active.toList seed (i + d) = .ok (x, true) := by
+  obtain ⟨p, hp, hv, hmax⟩ := hm
+  have hn63 : active.size ≤ 2 ^ 63 := by have := ok.size; omega
+  have hn := ok.nonempty
+  -- the candidate number (mod n) that the permutation sends to position p
+  let cs := permDown (Hasher.ofHash H seed) active.size cfg.SHUFFLE_ROUND_COUNT p
+  have hcs : cs < active.size := permDown_lt hn63 _ p hp
+  have hup : permUp (Hasher.ofHash H seed) active.size cfg.SHUFFLE_ROUND_COUNT cs = p := permUp_permDown hn63 _ p hp
+  have hr : i % active.size < active.size := Nat.mod_lt _ hn
+  have key : ∀ d, (i % active.size + d) % active.size = cs → d < active.size →
+      ∃ x, Spec.candidate H cfg vals.toList active.toList seed (i + d) = .ok (x, true) := by
+    intro d hd _
+    have hmod : (i + d) % active.size = cs := by
+      rw [← hd, Nat.mod_add_mod]
+    have hc := candidate_ok ok seed (i + d)
+    have hpos : candPos H cfg active seed (i + d) = p := by unfold candPos; rw [hmod]; exact hup
+    have gen : ∀ q (hq : q < active.size) (hqv : active[q] < vals.size), q = p →
+        cfg.MAX_EFFECTIVE_BALANCE ≤ (vals[active[q]]).effBal := by
+      intro q hq hqv e; subst e; exact hmax
+    refine ⟨active[candPos H cfg active seed (i + d)]'(candPos_lt ok seed _), ?_⟩
+    rw [hc, accepts_of_max cfg _ _ (gen _ (candPos_lt ok seed _) (ok.valid _ _) hpos) (byteAt_le _ _)]
+  by_cases hle : i % active.size ≤ cs
+  · exact ⟨cs - i % active.size, by omega, key _ (by
+      have : i % active.size + (cs - i % active.size) = cs := by omega
+      rw [this, Nat.mod_eq_of_lt hcs]) (by omega)⟩
+  · exact ⟨cs + active.size - i % active.size, by omega, key _ (by
+      have : i % active.size + (cs + active.size - i % active.size) = cs + active.size := by omega
+      rw [this, Nat.add_mod_right, Nat.mod_eq_of_lt hcs]) (by omega)⟩
+
+/-- the specification's proposer loop stops as soon as an accepted candidate is within its fuel -/
+theorem spec_cpi_ok_of_accept {H cfg vals active} (ok : SampleOK H cfg vals active) (seed : ByteArray) :
+    ∀ fuel i, (∃ d, d < fuel ∧ ∃ x, Spec.candidate H cfg vals.toList active.toList seed (i + d) = .ok (x, true)) →
+      ∃ c, Spec.compute_proposer_index H cfg vals.toList active.toList seed fuel i = .ok c := by
+  intro fuel
+  induction fuel with
+  | zero => intro i ⟨d, hd, _⟩; omega
+  | succ fuel ih =>
+    intro i ⟨d, hd, x, hx⟩
+    have hn0 : ¬ active.toList.length = 0 := by have := ok.nonempty; rw [Array.length_toList]; omega
+    rw [Spec.compute_proposer_index]
+    simp only [hn0, if_false]
+    have hc := candidate_ok ok seed i
+    rw [hc]
+    cases hacc : accepts cfg (vals[active[candPos H cfg active seed i]'(candPos_lt ok seed _)]'(ok.valid _ _)).effBal
+        (byteAt (H (seed ++ putUint64 (i / 32))) (i % 32))
+    · simp only
+      cases d with
+      | zero =>
+        rw [Nat.add_zero, hc, hacc] at hx
+        injection hx with hx; injection hx with _ hx; cases hx
+      | succ d =>
+        apply ih (i + 1)
+        exact ⟨d, by omega, x, by rw [show i + 1 + d = i + (d + 1) by omega]; exact hx⟩
+    · exact ⟨_, rfl⟩
+
+/-- **with an active validator at the maximum effective balance and at most 32 000 active validators,
+`ComputeProposerIndex` never reaches its cut-off**: it returns, and the value is the specification's -/
+theorem computeProposerIndex_total {H cfg vals active} (ok : SampleOK H cfg vals active)
+    (hm : HasMaxBalance cfg vals active) (hsmall : active.size ≤ 32000) (seed : ByteArray) :
+    ∃ c, computeProposerIndex H cfg vals active seed = .ok c ∧
+      ∀ F, Spec.compute_proposer_index H cfg vals.toList active.toList seed (32000 + F) 0 = .ok c := by
+  obtain ⟨d, hd, hx⟩ := window_accepts ok hm seed 0
+  have hspec : ∀ F, ∃ c, Spec.compute_proposer_index H cfg vals.toList active.toList seed (32000 + F) 0 = .ok c :=
+    fun F => spec_cpi_ok_of_accept ok seed (32000 + F) 0 ⟨d, by omega, hx⟩
+  rcases computeProposerIndex_spec ok seed 0 with ⟨c, hmod, _⟩ | ⟨_, hsp⟩
+  · refine ⟨c, hmod, fun F => ?_⟩
+    rcases computeProposerIndex_spec ok seed F with ⟨c', hmod', hsp'⟩ | ⟨hmod', _⟩
+    · rw [hmod] at hmod'; injection hmod' with e; rw [e]; exact hsp'
+    · rw [hmod] at hmod'; cases hmod'
+  · obtain ⟨c, hc⟩ := hspec 0
+    rw [hsp] at hc
+    simp [Spec.compute_proposer_index] at hc
+
+/-- one more member: from candidate `i`, with an accepted candidate `d` steps ahead, the specification's sync
+loop appends exactly one index after at most `d + 1` iterations -/
+theorem sync_loop_one_more {H cfg vals active} (ok : SampleOK H cfg vals active) (seed : ByteArray) :
+    ∀ d i acc, acc.length < cfg.SYNC_COMMITTEE_SIZE →
+      (∃ x, Spec.candidate H cfg vals.toList active.toList seed (i + d) = .ok (x, true)) →
+      ∃ j, j ≤ d ∧ ∃ c, ∀ fuel, Spec.sync_loop H cfg vals.toList active.toList seed (fuel + (j + 1)) i acc =
+        Spec.sync_loop H cfg vals.toList active.toList seed fuel (i + j + 1) (acc ++ [c]) := by
+  intro d
+  induction d with
+  | zero =>
+    intro i acc hlen ⟨x, hx⟩
+    refine ⟨0, Nat.le_refl _, x, fun fuel => ?_⟩
+    rw [Nat.add_zero] at hx
+    rw [show fuel + (0 + 1) = fuel + 1 by omega, Spec.sync_loop]
+    simp only [hlen, not_true_eq_false, if_false, hx, Nat.add_zero]
+  | succ d ih =>
+    intro i acc hlen ⟨x, hx⟩
+    have hc := candidate_ok ok seed i
+    cases hacc : accepts cfg (vals[active[candPos H cfg active seed i]'(candPos_lt ok seed _)]'(ok.valid _ _)).effBal
+        (byteAt (H (seed ++ putUint64 (i / 32))) (i % 32))
+    · obtain ⟨j, hj, c, hjc⟩ := ih (i + 1) acc hlen ⟨x, by rw [show i + 1 + d = i + (d + 1) by omega]; exact hx⟩
+      refine ⟨j + 1, by omega, c, fun fuel => ?_⟩
+      rw [show fuel + (j + 1 + 1) = (fuel + (j + 1)) + 1 by omega, Spec.sync_loop]
+      simp only [hlen, not_true_eq_false, if_false, hc, hacc]
+      rw [hjc fuel, show i + 1 + j + 1 = i + (j + 1) + 1 by omega]
+    · refine ⟨0, by omega, active[candPos H cfg active seed i]'(candPos_lt ok seed _), fun fuel => ?_⟩
+      rw [show fuel + (0 + 1) = fuel + 1 by omega, Spec.sync_loop]
+      simp only [hlen, not_true_eq_false, if_false, hc, hacc, Nat.add_zero]
+
+/-- **the specification's sync-committee loop terminates within `SYNC_COMMITTEE_SIZE · n + 1` iterations** when
+some active validator has the maximum effective balance, and returns exactly `SYNC_COMMITTEE_SIZE` indices -/
+theorem sync_loop_terminates {H cfg vals active} (ok : SampleOK H cfg vals active)
+    (hm : HasMaxBalance cfg vals active) (seed : ByteArray) :
+    ∀ need acc i fuel, cfg.SYNC_COMMITTEE_SIZE ≤ acc.length + need → need * active.size + 1 ≤ fuel →
+      ∃ l, Spec.sync_loop H cfg vals.toList active.toList seed fuel i acc = .ok l ∧
+        (acc.length ≤ cfg.SYNC_COMMITTEE_SIZE → l.length = cfg.SYNC_COMMITTEE_SIZE) := by
+  intro need
+  induction need with
+  | zero =>
+    intro acc i fuel h1 h2
+    obtain ⟨f, rfl⟩ : ∃ f, fuel = f + 1 := ⟨fuel - 1, by omega⟩
+    have : ¬ acc.length < cfg.SYNC_COMMITTEE_SIZE := by omega
+    exact ⟨acc, by rw [Spec.sync_loop]; simp only [this, not_false_eq_true, if_true], by omega⟩
+  | succ need ih =>
+    intro acc i fuel h1 h2
+    rw [Nat.succ_mul] at h2
+    by_cases hlen : acc.length < cfg.SYNC_COMMITTEE_SIZE
+    · obtain ⟨d, hd, hx⟩ := window_accepts ok hm seed i
+      obtain ⟨j, hj, c, hjc⟩ := sync_loop_one_more ok seed d i acc hlen hx
+      have hf : fuel = (fuel - (j + 1)) + (j + 1) := by omega
+      rw [hf, hjc]
+      obtain ⟨l, hl, hlen'⟩ := ih (acc ++ [c]) (i + j + 1) (fuel - (j + 1))
+        (by rw [List.length_append, List.length_singleton]; omega) (by omega)
+      exact ⟨l, hl, fun _ => hlen' (by rw [List.length_append, List.length_singleton]; omega)⟩
+    · obtain ⟨f, rfl⟩ : ∃ f, fuel = f + 1 := ⟨fuel - 1, by omega⟩
+      exact ⟨acc, by rw [Spec.sync_loop]; simp only [hlen, not_false_eq_true, if_true], by omega⟩
 end Zrnt.Proofs.Committees
